@@ -352,7 +352,10 @@ def handleHist (prop : String) (fs : List (String × String)) : String := Id.run
   let [al, rc, ad, am, sm] := cfgS.map (·.toNat?.getD 0) | return "PARSE cfg"
   let cfg : Cfg := { self := "S", reclaim := rc == 1, hasAliveDelegate := ad == 1, hasConflictDelegate := true,
                      awarenessMax := am, suspicionK := sm - 2 }
-  let cx : Ctx := { self := "S", reclaim := rc == 1, allowlist := al == 1, allowedSet := [0, 1, 2, 4, 7], awareMax := am, aliveDel := ad == 1, suspMult := sm }
+  let allowedSet := match get fs "allowed" with
+    | some a => if a == "-" then [] else (a.splitOn ".").filterMap String.toNat?
+    | none => [0, 1, 2, 4, 7]
+  let cx : Ctx := { self := "S", reclaim := rc == 1, allowlist := al == 1, allowedSet, awareMax := am, aliveDel := ad == 1, suspMult := sm }
   let some init := (get fs "init").bind parseObs | return "PARSE init"
   let mut node := initNode cfg init
   let mut pre := init
@@ -427,7 +430,9 @@ def handleSrc (fs : List (String × String)) : String := Id.run do
   let recorded := getD fs "recorded" "0" == "1"
   let events := (getNat fs "events").getD 0
   let panicked := getD fs "panic" "0" == "1"
-  let innerOK := [0, 1, 2, 4, 7].contains inner
+  let innerOK := match get fs "innerok" with
+    | some v => v == "1"
+    | none => [0, 1, 2, 4, 7].contains inner
   let expect := srcOK && innerOK
   let bad : Option String :=
     if panicked then some "panic"
@@ -451,7 +456,7 @@ def handleLeave (fs : List (String × String)) : String := Id.run do
   let left := (getNat fs "left").getD 0
   let failed := (getNat fs "failed").getD 0
   let listed := (getNat fs "listed").getD 0
-  let okReturned := (scenario == "plain" && res1 == "nil") || (scenario != "plain" && res2 == "nil")
+  let okReturned := (scenario != "timeout-then-again" && res1 == "nil") || (scenario == "timeout-then-again" && res2 == "nil")
   let inv := getD fs "inv" "ok"
   let bad : Option String :=
     if inv != "ok" then some s!"cluster-invariant:{inv}"
